@@ -156,7 +156,14 @@ def run(rep, tier):
                         loc, r['fn'], r['label'], after, before, bsize, tag),
                         'the counter must keep counting exactly as in the error-free case: every _write adds data->bsize whatever the error state',
                         sample={'fn': r['fn'], 'entry': r['label'], '_write_at': loc, 'counter_before': before, 'added': bsize, 'counter_after': after})
-                need(nw >= 1 or r['fn'] == 'binson_parser_to_writer', 'C09: no _write call observed in %s [%s]' % (r['fn'], r['label']))
+                if nw == 0 and r['fn'] != 'binson_parser_to_writer':
+                    # the function reaches no _write at all with an error latched: if it does in the error-free disjunct, the
+                    # counter stops counting after a failure (a violation, not a vacuous run)
+                    okcalls = sum(len(x['extra']['wcount']) for x in wres if x['fn'] == r['fn'] and x['label'].endswith('wok'))
+                    need(okcalls >= 1, 'C09: no _write call observed in %s [%s]' % (r['fn'], r['label']))
+                    rep.ob(False, '%s:LATCH-COUNT' % r['fn'],
+                           'C09 %s reaches no _write with a writer error latched although it does without one: the counter stops counting after a '
+                           'failed write (%s)' % (r['fn'], tag), 'entry: %s' % r['label'])
             # whether _write is called at all must not depend on the error state: the taint clause of C04 (control dependence)
             from props.c04 import taint_clause
             wmod = irload.load([x for x in raws if 'binson_writer' in x][0])
